@@ -26,6 +26,9 @@ extend_query (spelled out in `C12_headline_str_argument_pairs_def`); `QsMore.slo
 slot / the first offending slot of a pair SEQUENCE raises (spelled out in `C12_headline_rejected_value_kinds_pairs`);
 `Reach e u` (C01Reach.lean) = `u` is obtainable through the auto-encoding API: `URL(s)` on a Python string, `URL.build(...,
 encoded=False)`, any of the modifiers (`with_path` with `encoded=False`) with Python-string arguments, `join`, copies.
+Continued in C12HeadlineMore3.lean (GAPS 9: the clauses over `ReachE`, the closure of ALL entry points incl. `encoded=True`,
+C12ReachE.lean; tail of GAPS 6: non-str keys, wrong-typed values and arguments in every container — MODEL-LEVEL, over the
+dynamic-dispatch model YarlModel/Dyn.lean, C12Dyn.lean).
 -/
 namespace Yarl
 open QsLemmas MdLemmas QueryUrl QsMore
@@ -493,8 +496,32 @@ GAPS:
     C12_headline_rejected_value_kinds_pairs, C12_headline_update_query_error_order.  "The call FAILS" is now proved for a pair
     SEQUENCE with a bad value (all three methods) and for update_query with a mapping; with_query / extend_query raise the
     error of the FIRST offending value, update_query the error of ONE of the offending values (the first in the order of the
-    updated multidict; exactly determined when all offending values are of one kind).  STILL OPEN: `bool` etc. as KEYS, and
-    non-str keys, are not modelled (keys are `Str`).
+    updated multidict; exactly determined when all offending values are of one kind).  The former open tail ("`bool` etc. as
+    KEYS, and non-str keys, are not modelled (keys are `Str`)") is CLOSED AT MODEL LEVEL ONLY by C12_dyn_value_gate,
+    C12_dyn_rejects, C12_dyn_bad_value_kinds, C12_dyn_rejects_in_list_value, C12_dyn_argument_gate, C12_dyn_bytes_argument,
+    C12_dyn_key_of_pair, C12_dyn_update_query_non_str_key, C12_dyn_update_query_sequence, C12_dyn_non_str_keys,
+    C12_dyn_none_key_differs, C12_dyn_empty_value_hides_key, C12_dyn_unpack (C12Dyn.lean), see C12_headline_dyn_value_gate,
+    _dyn_bad_value_kinds, _dyn_rejects_values, _dyn_rejects_in_list_value, _dyn_argument_gate, _dyn_bytes_argument,
+    _dyn_bytes_argument_fails_for_empty, _dyn_key_of_pair, _dyn_non_str_keys, _dyn_update_query_non_str_key,
+    _dyn_update_query_sequence, _dyn_none_key_differs, _dyn_empty_value_hides_key, _dyn_unpack (C12HeadlineMore3.lean).
+    These theorems are about `dynWithQuery` / `dynExtendQuery` / `dynUpdateQuery` (+ keyword forms) of YarlModel/Dyn.lean: a
+    hand transcription of the type dispatch of `get_str_query` / `query_var` / `URL.update_query` / (C implementation of)
+    multidict 6.2 `MultiDict.update` over the object universe `PyObj`, tied to CPython ONLY by the run-time probe table at the
+    end of C12Dyn.lean, not by proof.  Proved there (model-level): a bool / None / bytes / dict / URL / object value
+    (TypeError) or NaN / inf (ValueError) is rejected by all three methods in EVERY container — dict, list of 2-tuples, tuple
+    of 2-lists, kwargs — with_query / extend_query with exactly the error of the first bad value (entries before it fine),
+    update_query with TypeError or ValueError (exactly that error when the other entries are fine); bad values inside a
+    list / tuple value; KEYS: a str subclass key is the str; for with_query / extend_query every key type other than
+    str / None is a TypeError when the pair is rendered; for update_query EVERY non-str key (None included) is a TypeError
+    from `MultiDict.update`, and a sequence is validated element by element (not iterable → TypeError, length ≠ 2 →
+    ValueError, key → TypeError), the first offending element deciding; a truthy bytes / int / float / bool / URL / object
+    ARGUMENT is a TypeError.  FALSE / not rejected (model-level, each with a probe row from the real library):
+    "bytes are rejected" fails for the EMPTY bytes argument — `with_query(b"")` clears the query, `extend_query(b"")` /
+    `update_query(b"")` keep it — and likewise every FALSY non-query argument (`0`, `False`, `0.0`, `URL("")`) is treated
+    like "" (C12_headline_dyn_bytes_argument_fails_for_empty, C12_headline_dyn_argument_gate); the KEY `None` is accepted
+    by with_query / extend_query as the text "None" but rejected by update_query (C12_headline_dyn_none_key_differs; an
+    observation — the property text speaks of None VALUES); a non-str key whose value is an EMPTY list / tuple is not
+    noticed by with_query / extend_query (C12_headline_dyn_empty_value_hides_key).  STILL OPEN: item 10 (a).
  7. CLOSED by C12_constructor_goodpairs, C12_reach_without_query_params, C12_reach_update_is_multidict_update (C12More.lean,
     via C01_reachable_wf), see C12_headline_reachable_good_pairs, C12_headline_without_query_params_reachable,
     C12_headline_update_is_multidict_update_reachable.  `GoodPairs (queryPairs u)` holds for every URL in `Reach e` (constructor
@@ -503,8 +530,40 @@ GAPS:
     C12More.lean: C12_reach_update_keeps_others, C12_reach_update_replaces, C12_reach_update_lists).
  8. `mdUpdate` is a hand model of multidict 6.2 `_update_items` (checked by the differential harness); there
     is no proof link to multidict's source.  kwargs-vs-positional conflicts (`.noArgs`, both given) are
-    modelled only as `.noArgs → ValueError`.
- 9. NEW.  `Reach` does not contain URLs made or modified with `encoded=True` (`URL(s, encoded=True)`, `build(encoded=True)`,
-    `with_path(…, encoded=True)`); for those no theorem discharges `hold` (and for `URL(s, encoded=True)` it can fail: `surrUrl`).
+    modelled only as `.noArgs → ValueError`.  (C12Dyn.lean adds, model-level: the keyword forms `f(k=v, …)` as
+    `dynQueryKw` — a mapping with str keys, no keyword at all = `.noArgs` — covered by C12_headline_dyn_rejects_values; and
+    `Dyn.mdPair`, a hand model of the per-element validation of the C implementation of `MultiDict.update`, with the same
+    status as `mdUpdate`.  "Both positional and keyword arguments given" is still not modelled.)
+ 9. `Reach` does not contain URLs made or modified with `encoded=True` (`URL(s, encoded=True)`, `build(encoded=True)`,
+    `with_path(…, encoded=True)`); for those no theorem of THIS file discharges `hold` (and for `URL(s, encoded=True)` it can
+    fail: `surrUrl`).
+    CLOSED by C12_reachE_good_pairs, C12_reachE_query_no_surrogate, C12_reachE_good_pairs_of_inputs,
+    C12_reachE_with_and_extend_query, C12_reachE_without_query_params, C12_reachE_update_is_multidict_update,
+    C12_reachE_update_keeps_others, C12_reachE_update_replaces, C12_reachE_update_lists, C12_reachE_query_accessor_spec,
+    C12_reachE_fails_for_surrogate (C12ReachE.lean, over `ReachE` = the closure of ALL entry points incl. `encoded=True`,
+    ReachE.lean), see C12_headline_reachE_good_pairs, _reachE_good_pairs_of_inputs, _reachE_with_and_extend_query,
+    _reachE_without_query_params, _reachE_update_is_multidict_update, _reachE_update_keeps_others, _reachE_update_replaces,
+    _reachE_update_lists, _reachE_query_accessor_spec, _reachE_fails_for_surrogate (C12HeadlineMore3.lean).
+    Proved: with_query / extend_query (mapping, pair sequence) need NOTHING of the URL; without_query_params and
+    update_query (is-multidict-update for sequence / single-valued mapping / string, keeps-others and replaces for a pair
+    sequence, keeps-others / replaces / prefix for list-valued mappings) hold for every `ReachE` URL under ONE hypothesis.
+    Hypothesis: `NoSurrogate u.query` — no lone surrogate in the stored query; it follows from the INPUTS when no text
+    handed over with `encoded=True` contained a lone surrogate (`ReachEX NoSurrogate Z Sc e u`,
+    C12_headline_reachE_good_pairs_of_inputs) and it is NEEDED: `URL('?\ud800=1&b=2', encoded=True)` is in `ReachE` and
+    there "keeps every other pair" / "removes exactly the named keys" are FALSE (C12_headline_reachE_fails_for_surrogate; =
+    C06 "lone surrogates excepted").  The F-C12-multidict-tail guard of item 5 is unchanged.
+10. NEW.  Side conditions introduced by the theorems that close 9 and the tail of 6.  (a) Everything cited from C12Dyn.lean
+    is MODEL-LEVEL: YarlModel/Dyn.lean is a transcription, its ASSUMPTIONS (header of Dyn.lean) are not proved — `.strSub`
+    is a PLAIN str subclass (no overridden `__str__` / `__iter__` / …); a `dict` stands for every Mapping type (MultiDict
+    etc. have no tag); `.other` is an `object()`-like instance; objects with `__int__` (Fraction, Decimal, numpy ints) and
+    bytearray / memoryview have no tag; `Dyn.mdPair` models the C implementation of multidict 6.2 (the pure-Python one
+    raises TypeError instead of ValueError for an element of the wrong length: observed, not modelled); the probe table
+    checks finitely many rows on `URL("http://h/p?a=1#f")` only.  (b) `NoSurrogate u.query` is a hypothesis on the stored
+    text; from the inputs it is derived only in the form "ALL `encoded=True` texts on the way to `u` are free of lone
+    surrogates" (sufficient, not necessary).  (c) Over `ReachE` the STRING-argument clauses of update_query for
+    keeps-others / replaces and the single-valued-mapping forms of keeps-others / replaces are not restated (they follow
+    from C12_headline_update_keeps_others_mapping_str / _replaces_mapping_str with `hold` from
+    C12_headline_reachE_good_pairs); with_query / extend_query with a string argument need no hypothesis on `u` at all
+    (C12_headline_with_query_str, C12_headline_extend_query_str).
 -/
 end Yarl
